@@ -329,11 +329,15 @@ fn run_adi(c: &CandleStream, st: &mut Stats) -> CaseResult {
 	let xs: Vec<f64> = vals.iter().map(|x| x.0).collect();
 	let es: Vec<f64> = vals.iter().map(|x| x.1).collect();
 	let mut mag = Mag::new(xs[0]);
+	// in half of the cases the construction candle is prehistory only and is not fed again
+	let skip = (c.cs.len() % 2 == 1 && c.cs.len() > 2) as usize;
+	let (seed_x, seed_e) = (xs[0], es[0]);
+	let (xs, es) = (xs[skip..].to_vec(), es[skip..].to_vec());
 	for t in 0..xs.len() {
 		let mt = mag.add(xs[t]);
-		let got = m.next(&c.cs[t].candle()) as f64;
-		let e: f64 = win::sum(&refm::window(&xs, xs[0], t, n));
-		let tol = allow(n, t, mt, n as f64) + win::sum(&refm::window(&es, es[0], t, n)) + es.iter().take(t + 1).sum::<f64>();
+		let got = m.next(&c.cs[t + skip].candle()) as f64;
+		let e: f64 = win::sum(&refm::window(&xs, seed_x, t, n));
+		let tol = allow(n, t, mt, n as f64) + win::sum(&refm::window(&es, seed_e, t, n)) + seed_e + es.iter().take(t + 1).sum::<f64>();
 		st.ratio((got - e).abs() / tol);
 		ensure!((got - e).abs() <= tol, "C02:ADI:value", "ADI({}) step {}: got {:e} expected {:e} (allowance {:e})", n, t, got, e, tol);
 	}
